@@ -194,6 +194,8 @@ def parse_packet(b, ext_sizes=None):
             if h == 0:
                 if ext_sizes is None or p.ptype not in ext_sizes:
                     p.unknown_mandatory = p.ptype
+                    p.payload = body[o:]
+                    p.hdr_len = 2 + o
                     return p
                 fin, size = ext_sizes[p.ptype]
             else:
